@@ -238,10 +238,11 @@ def run(ctx):
         "in Model/C20_Admt.v (no convergence-in-the-limit statement is proved)",
     ]
     ctx.rebuild()
-    ctx.proofs("Properties.C20", THEOREMS)
+    ctx.proofs("Properties.C20", THEOREMS, extra_modules=("Model.C20_Check", "Proofs.C20_Check"))
 
     import cherab
-    assert list(cherab.__path__) == ["/repo/cherab"], cherab.__path__
+    from common import REPO
+    assert list(cherab.__path__) == [REPO + "/cherab"], cherab.__path__
     from cherab.tools.inversions import admt_utils
 
     rng = ctx.rng
